@@ -13,7 +13,7 @@ ops (all numbers decimal; lists comma separated, `-` = empty):
   endblock <slashed> <oracleSetReq> [<blocks>]
   exec <nonce> <outcome: o | r | f> <forest>      forest ::= [ call , call , ... ]    call ::= <nonce>:<outcome><forest>
        e.g.  exec 1 o [1:o[],2:r[3:o[]],3:o[]]   (the calls the called-back contracts make, in order)
-answer: `<out> lo=.. tp=.. ln=.. or=.. bb=.. be=.. prop=.. atts=.. pend=.. ex=..` (maps in key order; ex = nonce:times its
+answer: `<out> lo=.. tp=.. ln=.. or=.. bb=.. be=.. prop=.. atts=.. pend=.. ex=.. ev=..` (maps in key order; ev = nonce/hash observed by this op; ex = nonce:times its
 deferred effects are in force)
 -/
 open FxVerif FxVerif.Util FxVerif.Model.C01
@@ -122,7 +122,10 @@ def stepLine (s : State) (line : String) : State × String :=
     match parseOp ws with
     | some op =>
       let (s', o) := step s op
-      (s', showOut o ++ " " ++ showState s')
+      -- ev = the (nonce, hash id) entries this step appended to the observation log
+      let added := s'.observedLog.drop s.observedLog.length
+      let ev := if added.isEmpty then "-" else "+".intercalate (added.map fun p => s!"{p.1}/{p.2}")
+      (s', showOut o ++ " " ++ showState s' ++ " ev=" ++ ev)
     | none => (s, "bad-op")
 
 def main : IO Unit := runDriver stepLine (init {})
